@@ -22,8 +22,17 @@
 //! `Recency` uses the generation of a metric, along with a measurement of time when a metric is
 //! observed, to build a complete picture that allows deciding if a given metric has gone "idle" or
 //! not, and thus whether it should actually be deleted.
+#[cfg(not(metrics_verif))]
 use std::sync::atomic::{AtomicUsize, Ordering};
+#[cfg(not(metrics_verif))]
 use std::sync::{Arc, Mutex, PoisonError};
+#[cfg(metrics_verif)]
+use metrics::verif::{
+    atomic::{AtomicUsize, Ordering},
+    sync::Mutex,
+};
+#[cfg(metrics_verif)]
+use std::sync::{Arc, PoisonError};
 use std::time::Duration;
 use std::{collections::HashMap, ops::DerefMut};
 
